@@ -169,3 +169,27 @@ Definition pairs_wf_module (m : bmodule) : bool :=
   forallb (fun x => forallb (fun c : name * bexpr => forallb (fun r : name * name => not_pair m (fst r)) (bexpr_refs (snd c))) (bi_conns x)) (bm_insts m).
 
 Definition pairs_wf (d : bdesign) : bool := forallb pairs_wf_module (bd_mods d).
+
+(* a path of a node is valid: every element names an instance of a module of the design; the element of a Pair is 0 or 1
+   (Spec/C01BLower.v:bnode_ok says the same of the instance of a port node, not of its path) *)
+Fixpoint pokb (d : bdesign) (m : bmodule) (q : list pelem) : bool :=
+  match q with
+  | [] => true
+  | (i, e) :: q' =>
+      match find_binst (bm_insts m) i with
+      | Some x =>
+          (negb (bi_pair x) || (e =? 0) || (e =? 1)) &&
+          match bi_of x with
+          | TMod k => match nth_error (bd_mods d) k with Some m' => pokb d m' q' | None => false end
+          | TDev _ _ => false
+          end
+      | None => false
+      end
+  end.
+
+Definition node_path_ok (d : bdesign) (n : bnode) : bool :=
+  match n with
+  | NBSig p _ _ _ | NBPort p _ _ _ _ _ =>
+      match nth_error (bd_mods d) (bd_top d) with Some top => pokb d top (rev p) | None => false end
+  | NBNc _ _ _ => true
+  end.
